@@ -133,7 +133,9 @@ def table_of(g, body, want_fn):
                 out[tag if tag is not None else ('map', len(out))] = (mod, fn, tuple(kmods))
             elif fn.startswith(want_fn):
                 tag = const_tag(cs.arg(0)) if cs.t['args'] else None
-                out[tag] = (mod, fn, ())
+                succ = x.cfg[0]
+                looped = any(cs.bb in x.reach_from(s2) for s2 in succ[cs.bb])
+                out[tag] = (mod, fn, (), looped)
     return out
 
 
@@ -222,6 +224,22 @@ def check(rep, want_rules=('G05.d', 'G06.a', 'G18.c')):
                     rep.ok('G05.d', key, 'encode_raw, encoded_len and merge_field use the same codec module per tag: %s' % te, ms['encode_raw'].loc())
                 else:
                     rep.bad('G05.d', key, ms['encode_raw'].loc(), 'message %s: tables disagree: encode_raw %s, encoded_len %s, merge_field %s, declared tags %s' % (label, te, tl, tm, sorted(want_tags)))
+                # the same form (singular / repeated / packed) in encode_raw and encoded_len, matching the field label
+                def form(fn):
+                    return fn[len('encoded_len'):] if fn.startswith('encoded_len') else fn[len('encode'):]
+                for f in plain:
+                    if f.label == 'map' or f.tag not in enc or f.tag not in ln:
+                        continue
+                    k3 = 'G05.d|%s|form of tag %s' % (label, f.tag)
+                    fe, fl = form(enc[f.tag][1]), form(ln[f.tag][1])
+                    want_forms = ('_repeated', '_packed') if f.label == 'repeated' else ('',)
+                    if fe == '' and fl == '_repeated' and f.label == 'repeated' and len(enc[f.tag]) > 3 and enc[f.tag][3]:
+                        # `for m in &self.f { encode(tag, m, buf) }` is what encode_repeated does
+                        rep.ok('G05.d', k3, 'repeated field written by a loop of %s::encode, measured by %s' % (enc[f.tag][0], ln[f.tag][1]), ms['encode_raw'].loc())
+                    elif fe == fl and fe in want_forms:
+                        rep.ok('G05.d', k3, '%s field: %s / %s' % (f.label, enc[f.tag][1], ln[f.tag][1]), ms['encode_raw'].loc())
+                    else:
+                        rep.bad('G05.d', k3, ms['encode_raw'].loc(), 'message %s field %s (%s %s): encode_raw writes it with %s::%s but encoded_len measures it with %s::%s: the reported length is not the number of bytes written' % (label, f.name, f.label, f.ty, enc[f.tag][0], enc[f.tag][1], ln[f.tag][0], ln[f.tag][1]))
                 # maps: key/value codecs agree across the three
                 for t, v in enc.items():
                     if v[0] in ('hash_map', 'btree_map'):
